@@ -572,6 +572,15 @@ func runSequence(e *env, no int, avoid map[string]bool) {
 	}
 	s := &seq{e: e, c: c, r: r, no: no, avoid: avoid}
 	e.b.Eval(1)
+	if no%2 == 0 {
+		// deterministic placement, own PRNG stream: the generated sequences stay
+		// what they were before this step existed
+		saved := s.r
+		s.r = vlib.NewRand(e.spec.Seed, fmt.Sprintf("C13/gated/%d", e.spec.Batch), uint64(no))
+		s.stepGated()
+		s.r = saved
+		e.jwrite("Q", c.no, nil, "")
+	}
 	steps := r.Range(5, 24)
 	for i := 0; i < steps && !e.aborted; i++ {
 		switch k := r.Intn(100); {
